@@ -354,8 +354,13 @@ func clip(b []byte) []byte {
 	return b
 }
 
-func TestC15Isolation(t *testing.T) {
-	const sub = "C15.isolation"
+func TestC15Isolation(t *testing.T) { muxIsolation(t, "C15.isolation") }
+
+// The same histories decide C11 for asks through a multiplexer: an ask on a channel the destination does not
+// serve must fail, an ask on a served channel is answered by that channel's handler.
+func TestC11MuxChannels(t *testing.T) { muxIsolation(t, "C11.mux_channels") }
+
+func muxIsolation(t *testing.T, sub string) {
 	ev.Rule(sub, "rapid: two nodes on the in-memory transport, one multiplexer of a generated kind each, 1-6 channels open at the destination and a (possibly larger) set at the sender, 1-20 tagged tells/asks on generated channels incl. channels the destination has not opened. Oracle: a message told/asked on channel c is seen only by the swarm opened for c at the destination, unchanged; messages for unopened channels reach nobody (asks fail) and later messages keep flowing. non-trivial = >= 2 open channels and at least one message to an unopened or near-miss channel; distinct by (kind, ids, message list)")
 	rapid.Check(t, func(t *rapid.T) {
 		kind := rapid.SampledFrom(muxKinds).Draw(t, "kind")
@@ -386,6 +391,11 @@ func TestC15Isolation(t *testing.T) {
 			ask     bool
 		}
 		var msgs []sentMsg
+		type usedVec struct {
+			vec, before p2p.IOVec
+			i, ch       int
+		}
+		var usedVecs []usedVec
 		toUnopened := false
 		desc := fmt.Sprintf("kind=%s ids=%q openAtDst=%d", kind, shortIDs(ids), nOpenDst)
 		fail := func(f string, args ...any) { t.Fatalf("%s\ncase: %s", fmt.Sprintf(f, args...), desc) }
@@ -403,9 +413,15 @@ func TestC15Isolation(t *testing.T) {
 				limit = ev.Extended(limit)
 			}
 			tctx, tcf := context.WithTimeout(ctx, limit)
+			// the payload is handed over as a vector of 1-3 buffers that the caller keeps and may use again
+			vec := p2p.IOVec{m.payload}
+			if len(m.payload) >= 2 && i%2 == 1 {
+				vec = p2p.IOVec{m.payload[:1], m.payload[1:]}
+			}
+			usedVecs = append(usedVecs, usedVec{vec, append(p2p.IOVec{}, vec...), i, m.ch})
 			if m.ask {
 				resp := make([]byte, 32)
-				rn, err := sendChans[m.ch].(stack.AskBidi).Ask(tctx, resp, b.Local(), p2p.IOVec{m.payload})
+				rn, err := sendChans[m.ch].(stack.AskBidi).Ask(tctx, resp, b.Local(), vec)
 				if m.ch < nOpenDst {
 					if err != nil {
 						fail("ask %d on open channel %q failed: %v", i, ids[m.ch], err)
@@ -420,7 +436,7 @@ func TestC15Isolation(t *testing.T) {
 					}
 				}
 			} else {
-				if err := sendChans[m.ch].Tell(tctx, b.Local(), p2p.IOVec{m.payload}); err != nil {
+				if err := sendChans[m.ch].Tell(tctx, b.Local(), vec); err != nil {
 					fail("tell %d on channel %q failed: %v", i, ids[m.ch], err)
 				}
 				if m.ch >= nOpenDst {
@@ -428,6 +444,17 @@ func TestC15Isolation(t *testing.T) {
 				}
 			}
 			tcf()
+		}
+		// the caller's vectors are unchanged (it may send the same vector again)
+		for _, u := range usedVecs {
+			if len(u.vec) != len(u.before) {
+				fail("message %d on channel %q: the caller's vector has %d buffers after the call, it had %d", u.i, ids[u.ch], len(u.vec), len(u.before))
+			}
+			for k := range u.vec {
+				if !bytes.Equal(u.vec[k], u.before[k]) {
+					fail("message %d on channel %q: buffer %d of the caller's vector was changed by the call (now %d bytes, was %d): sending the same vector again would send something else", u.i, ids[u.ch], k, len(u.vec[k]), len(u.before[k]))
+				}
+			}
 		}
 		// wait for the tells to open channels
 		wantTells := map[int]int{}
